@@ -47,6 +47,7 @@ def run(ctx, progs):
     for cfg, prog in progs.items():
         deriv1(ctx, prog, cfg)
         none1(ctx, prog, cfg)
+        shapes.viewcmp1(ctx, prog, cfg)
         for a, b in TWINS:
             shapes.twin(ctx, "TWIN", prog, a, b, cfg)
 
